@@ -56,6 +56,13 @@ int32_t psInitPubKey(psPool_t *pool, psPubKey_t *key, uint8_t type)
         psEccInitKey(pool, &key->key.ecc, NULL);
         break;
 # endif
+# ifdef USE_DH
+    case PS_DH:
+        /* No bignum is allocated yet. psClearPubKey() must be safe on a
+           key that never got as far as key generation or import. */
+        Memset(&key->key.dh, 0x0, sizeof(key->key.dh));
+        break;
+# endif
     default:
         break;
     }
